@@ -501,7 +501,7 @@ func (c06Prop) Phases(tier string) []PhaseCfg { return contPhases(tier) }
 
 func (c06Prop) Gen(t *Tape, ph *PhaseCfg) Case {
 	if ph.P["multi"] == 1 {
-		return genMulti(t)
+		return genMultiMid(t)
 	}
 	if ph.P["pair"] == 1 {
 		g := genPair(t, func() Case { return genContainerOpt(t, true) })
@@ -586,7 +586,7 @@ func (c15Prop) Phases(tier string) []PhaseCfg { return contPhases(tier) }
 
 func (c15Prop) Gen(t *Tape, ph *PhaseCfg) Case {
 	if ph.P["multi"] == 1 {
-		return genMulti(t)
+		return genMultiMid(t)
 	}
 	if ph.P["pair"] == 1 {
 		g := genPair(t, func() Case { return genContainerOpt(t, true) })
